@@ -85,8 +85,10 @@ def snap_solution(sol):
             sol.solutionAccuracy)
 
 
-def _params(spec):
+def _params(spec, values=None):
     kw = dict(eps=spec["eps"], r=spec["r"], itersLimit=spec["limit"])
+    if values is not None:
+        kw.update(values)
     if spec.get("refine"):
         kw["refineSolution"] = True
     if spec.get("density") is not None:
@@ -101,7 +103,9 @@ class Actor:
       params   one SolverParameters object handed to every solver
       default  no parameters argument at all (the Solver's default argument)
       problem  one Problem object handed to every solver (own parameters)
-      listener one console listener object attached to every solver (own Problem, own parameters)"""
+      listener one console listener object attached to every solver (own Problem, own parameters)
+      values   own Problem and own SolverParameters, but the parameter VALUES are the same objects: r and eps written
+               once as 0-d numpy arrays (np.asarray(2.5)) and handed to every SolverParameters"""
 
     def __init__(self, spec, hook=None, env=None):
         self.spec = spec
@@ -125,6 +129,10 @@ class Actor:
                     if "params" not in self.env:
                         self.env["params"] = _params(self.spec)
                     self.s = Solver(self.p, self.env["params"])
+                elif self.share == "values":
+                    if "values" not in self.env:
+                        self.env["values"] = dict(r=np.asarray(float(self.spec["r"])), eps=np.asarray(float(self.spec["eps"])))
+                    self.s = Solver(self.p, _params(self.spec, self.env["values"]))
                 elif self.share == "default":
                     self.s = Solver(self.p)
                 else:
@@ -463,6 +471,10 @@ def run(ctx):
     for dims in ((2, 1), (5, 2), (2, 5)) + (((1, 3), (3, 3)) if th else ()):
         for dens in (None, 12):
             tasks += shared("params", dims, ("quad0", "mono"), ["c", "i", "i", "S", "r"], density=dens)
+    # the same parameter value objects (0-d arrays) inside otherwise separate SolverParameters
+    for dims in ((1, 1), (2, 1), (2, 2)):
+        tasks += shared("values", dims, ("neg", "quad0"), ["c", "i", "i", "S", "r"], limit=12)
+        tasks += shared("values", dims, ("mono", "quad0"), ["c", "i", "I", "i", "r"], limit=12)
     for dims in ((2, 1), (6, 2), (2, 6)):
         tasks += shared("default", dims, ("mono", "quad0"), ["c", "i", "i", "i", "r"])
     # one SolverParameters object with refineSolution=True handed to both solvers (and own objects with the same values)
